@@ -360,6 +360,8 @@ pub(crate) mod kani_verif {
     expand_fixed_len_harness!(c10_expand_nolevel_full, 0x8000_0000u32, 20usize);
     // @h name=c10_expand_nolevel_padded props=C10,C11 tier=extended kind=bounded cfg=w8 timeout=1200 funcs=hss_expand_aux_data note="level word 0x80000000, length 21 (one byte of padding)" contract="a padded buffer is never accepted"
     expand_fixed_len_harness!(c10_expand_nolevel_padded, 0x8000_0000u32, 21usize);
+    // @h name=c10_expand_l1_hdr_window props=C10,C11 tier=extended kind=bounded cfg=w8 timeout=2400 funcs=hss_expand_aux_data note="level word 0x80000002 (level 1: 32 bytes), length 33: the cached level fits, header + level does not (seeded C11-2: bounds check that forgets the 4-byte header, then split_at panics)" contract="total (no panic) and None: a buffer shorter than header + cached levels is never accepted"
+    expand_fixed_len_harness!(c10_expand_l1_hdr_window, 0x8000_0002u32, 33usize);
     // @h name=c10_expand_word_nolevel props=C10,C11 tier=extended kind=bounded cfg=w8 timeout=1200 funcs=hss_expand_aux_data note="level word 0x80000000 (no cached level), lengths 4, 19, 20, 21; symbolic contents and seed" contract="Some only for the complete layout whose MAC field equals compute_hmac(seed-derived key, header); cut, missing or padded MAC: None; no panic"
     expand_concrete_harness!(c10_expand_word_nolevel, 0x8000_0000u32, 4usize);
     // @h name=c10_expand_word_l1 props=C10,C11 tier=thorough kind=bounded cfg=w8 timeout=2400 funcs=hss_expand_aux_data note="level word 0x80000002 (level 1: 32 bytes), lengths 36, 51, 52, 53" contract="same, one cached level: slice at offset 4, MAC over header || level 1"
